@@ -47,6 +47,49 @@ CHECKS.update({
         "harness counting sources", "DESIGN.md 4/C08"),
 })
 
+CHECKS.update({
+    "C06": ("exploration",
+        "differential: exact-rational window counts (1e-9 rule) -> reference segmentation vs split() on burst/gap recordings; complete enumeration of a reject grid against a decision table",
+        "Durations are built as decimal multiples of the window (whose float quotient is often not an integer) or clear non-multiples; recordings hold bursts of m-1, m, m+1 windows, gaps of s and s+1 windows and a burst of 2M+1 windows, so each of the three counts is observed directly. The accept/reject decision is enumerated on 9408 tuples.",
+        "statement's 1e-9 rule vs implementation epsilon: quotients between 1e-11 and 1e-8 from an integer are not generated", "DESIGN.md 4/C06"),
+    "C07": ("exploration",
+        "differential against an exact-rational energy oracle (50-digit dB), exact-boundary constructions, metamorphic monotonicity in the threshold",
+        "Windows with boundary-biased sample values x every selection mode x thresholds around the oracle energy; constant |10^k| windows put the energy exactly on the threshold.",
+        "decisions closer than 1e-9 dB to the threshold are not compared; numpy exactness for 10^k constants", "DESIGN.md 4/C07"),
+    "C09": ("exploration",
+        "metamorphic/differential: 12 container kinds x alias spellings x max_read against split(bytes, long names) and the reference pipeline",
+        "Same synthesized audio supplied through every container and spelling must give identical (start sample, bytes) regions; files written with stdlib wave/open; stdin through a rebound sys.stdin.",
+        "baseline split(bytes) judged by C05", "DESIGN.md 4/C09"),
+    "C10": ("exploration",
+        "model-based: closed-form block sequence over generated source/format/block/hop/max_read/source-kind/over-read configurations",
+        "Every read() of every generated configuration (incl. empty sources, max_read 0, lazy files, hop==block) compared with the closed form; rejected configurations must raise ValueError.",
+        "razor of 1e-9 on floor/round of duration*rate", "DESIGN.md 4/C10"),
+    "C11": ("exploration",
+        "stateful model-based testing (Hypothesis rule-based state machine) over read/position/rewind/close/open histories, per source kind",
+        "Cursor model over the byte string compared after every step for buffer, lazy raw, lazy wav and stdin sources; thorough adds a real OS pipe fed in odd-sized chunks.",
+        "file/stdin sources are never reopened (not claimed)", "DESIGN.md 4/C11"),
+    "C16": ("exploration",
+        "model-based: Python list slicing of the sample list; exhaustive small slice grid + generated big ints/floats; exact-rational bounds for time views",
+        "All sample slices with bounds in {None} U [-15,15] on all regions up to 12 samples x 9 formats are enumerated; seconds/millis views and invalid indices are generated.",
+        "razor of 1e-9 on trunc/round of t*rate; |t| <= 1e15", "DESIGN.md 4/C16"),
+    "C17": ("exploration",
+        "stateful model-based testing (rule-based state machine) over a pool of regions with a bytes-level model; operands re-verified after every step",
+        "Operation sequences of + sum * / join make_silence slice == mutation ragged-construction, with results fed back as operands.",
+        "dividing an empty region not generated", "DESIGN.md 4/C17"),
+    "C18": ("exploration",
+        "round-trip + differential: writer judged with stdlib wave/open, reader against the written bytes and exact-rational slicing; struct-level decode for numpy()",
+        "Generated audio x formats x writer x reader (eager/lazy) x name templates x exists_ok x skip/max_read incl. between samples and beyond the end.",
+        "razor on round(s*rate)", "DESIGN.md 4/C18"),
+    "C19": ("exploration",
+        "stateful model-based testing (rule-based state machine) over read/rewind/data histories of recording and non-recording readers",
+        "Consumed-prefix model and C10 block model compared at every step for every source kind, overlap and max_read combination.",
+        "C10 block model", "DESIGN.md 4/C19"),
+    "C20": ("exploration",
+        "metamorphic: second use vs fresh object; exhaustive pairs of short streams + generated histories",
+        "Tokenizer reuse after complete / partial / abandoned runs (exhaustive pairs for six parameter tuples), repeated split() on region/bytes/rewound recorder, validator history, buffer reopen.",
+        "fresh-object output is the reference", "DESIGN.md 4/C20"),
+})
+
 NOT_YET = "check not built yet in this round (planned in DESIGN.md section 10)"
 
 
